@@ -6,6 +6,7 @@ buffers) held before the step: it is `filter(coreSpec(state))`, an expression in
 -/
 import SophtVerif.Props.C01_3D
 import SophtVerif.Props.C19Filter
+import SophtVerif.Lemmas.Prog3D
 
 set_option linter.unusedVariables false
 set_option linter.unusedSectionVars false
@@ -63,5 +64,26 @@ theorem C18_step_scratch_free_3d (T : Transc K) (c : NS3Cfg K) (hw : c.width = 0
     simp only [vecOf, hsame _ hFb.xx.symm hFb.yx.symm hFb.zx.symm, hsame _ hFb.xy.symm hFb.yy.symm hFb.zy.symm, hsame _ hFb.xz.symm hFb.yz.symm hFb.zz.symm]
   rw [ev, eu, eF] at h1
   exact h1.trans' ⟨fun i j k hb => (h2.1 i j k hb).symm, fun i j k hb => (h2.2.1 i j k hb).symm, fun i j k hb => (h2.2.2 i j k hb).symm⟩
+
+/-! ### 3D Poisson-solve glue -/
+
+/-- the domain-doubled buffer handed to the 3D `rfft` is determined by the right-hand side alone: zero outside the
+`nz × ny × nx` corner, the right-hand side inside — whatever the buffer held from earlier solves -/
+theorem C18_poisson_buffer_determined_3d (nz ny nx : ℤ) (hnz : 0 ≤ nz) (hny : 0 ≤ ny) (hnx : 0 ≤ nx) (pb : Poisson3Bufs B) (rhs : B)
+    (hne : rhs ≠ pb.dbl) (s : Store3 B K) (i j k : ℤ) (hi : 0 ≤ i ∧ i < 2 * nz) (hj : 0 ≤ j ∧ j < 2 * ny) (hk : 0 ≤ k ∧ k < 2 * nx) :
+    exec3 (poissonPre3D nz ny nx pb rhs) s pb.dbl i j k = if (i < nz ∧ j < ny ∧ k < nx) then s rhs i j k else 0 := by
+  obtain ⟨hi0, hi1⟩ := hi
+  obtain ⟨hj0, hj1⟩ := hj
+  obtain ⟨hk0, hk1⟩ := hk
+  prog_simp3 [poissonPre3D, setFixedVal3D, elementwiseCopy3D, call_set_fixed_val_stencil_3d,
+    call_elementwise_copy_stencil_3d, set_fixed_val_stencil_3d, elementwise_copy_stencil_3d, hne]
+  split_ifs <;> first | rfl | (exfalso; omega)
+
+theorem C18_poisson_history_free_3d (nz ny nx : ℤ) (hnz : 0 ≤ nz) (hny : 0 ≤ ny) (hnx : 0 ≤ nx) (pb : Poisson3Bufs B) (rhs : B)
+    (hne : rhs ≠ pb.dbl) (s s' : Store3 B K) (hrhs : s rhs = s' rhs) (i j k : ℤ) (hi : 0 ≤ i ∧ i < 2 * nz) (hj : 0 ≤ j ∧ j < 2 * ny)
+    (hk : 0 ≤ k ∧ k < 2 * nx) :
+    exec3 (poissonPre3D nz ny nx pb rhs) s pb.dbl i j k = exec3 (poissonPre3D nz ny nx pb rhs) s' pb.dbl i j k := by
+  rw [C18_poisson_buffer_determined_3d nz ny nx hnz hny hnx pb rhs hne s i j k hi hj hk,
+    C18_poisson_buffer_determined_3d nz ny nx hnz hny hnx pb rhs hne s' i j k hi hj hk, hrhs]
 
 end Sopht.Props.C18
